@@ -277,7 +277,8 @@ def values(draw, spec, t, depth=2):
         v = {'k': 'obj', 'c': cc['name'], 'a': attrs}
         if cc.get('extra'):
             n = draw(st.integers(0, 2))
-            v['x'] = [['ex{}'.format(i), draw(plain_data(1))] for i in range(n)]
+            keys = draw(st.permutations(['ex0', 'ex1', 'zeta', 'alpha']))[:n]
+            v['x'] = [[k, draw(plain_data(1))] for k in keys]
         return v
     raise AssertionError(t)
 
